@@ -117,6 +117,8 @@ def run(ctx):
     ctx.props("C04")
     # bridges from the private interpreters of C03/C05/C08/C10 to Sem / SemQ
     ctx.props("C04_bridges")
+    # the end-to-end chain C05 -> C03 -> C04 (eval_prog ... SemQ.qrun on the assembled flattened lowering)
+    ctx.props("C05_end_to_end")
     quick = ctx.tier == "quick"
     if not quick:
         coqchk(ctx)
@@ -194,8 +196,9 @@ def coqchk(ctx):
     import subprocess
     import vlib
     mods = ["NQ.Proofs.ExecProofs", "NQ.Proofs.Bridge_Asm", "NQ.Proofs.Bridge_AsmChain", "NQ.Proofs.Bridge_Nv",
-            "NQ.Proofs.Bridge_Sdk", "NQ.Proofs.Bridge_Epr"]
-    r = subprocess.run(["timeout", "1500", "coqchk", "-silent", "-o", "-Q", vlib.COQ, "NQ"] + mods,
+            "NQ.Proofs.Bridge_Sdk", "NQ.Proofs.Bridge_Epr", "NQ.Proofs.Bridge_AsmQ", "NQ.Proofs.Bridge_SdkAsm",
+            "NQ.Proofs.Bridge_E2E"]
+    r = subprocess.run(["timeout", "2400", "coqchk", "-silent", "-o", "-Q", vlib.COQ, "NQ"] + mods,
                        capture_output=True, text=True)
     out = r.stdout + r.stderr
     ok = r.returncode == 0 and "* Axioms: <none>" in out
